@@ -125,3 +125,22 @@ def flows(repo):
         rows.append(f"  ({lean_str(name)}, {lean_str_list(ev)})")
     return ("namespace Generated.Flows\n\n/-- flow name ↦ events of one fault-free request: storage callbacks in invocation order, \"gen\", \"respond\" -/\n"
             "def flows : List (String × List String) := [\n" + ",\n".join(rows) + "]\n\nend Generated.Flows\n")
+
+
+@emitter("Metadata.lean")
+def metadata(repo):
+    """C18: the registry key lists that drive validate(), and the registered client metadata members"""
+    from authlib.oauth2.rfc8414 import AuthorizationServerMetadata
+    from authlib.oidc.discovery import OpenIDProviderMetadata
+    from authlib.oauth2.rfc7591 import ClientMetadataClaims
+    from authlib.oauth2.rfc7592 import ClientConfigurationEndpoint
+    import inspect, re
+    src = inspect.getsource(ClientConfigurationEndpoint.create_update_client_response)
+    m = re.search(r"must_not_include = \((.*?)\)", src, re.S)
+    forbidden = re.findall(r'"([a-z_]+)"', m.group(1)) if m else []
+    return ("namespace Generated.Metadata\n\n"
+            f"def asRegistryKeys : List String := {lean_str_list(AuthorizationServerMetadata.REGISTRY_KEYS)}\n\n"
+            f"def opRegistryKeys : List String := {lean_str_list(OpenIDProviderMetadata.REGISTRY_KEYS)}\n\n"
+            f"def clientRegisteredClaims : List String := {lean_str_list(ClientMetadataClaims.REGISTERED_CLAIMS)}\n\n"
+            f"def updateMustNotInclude : List String := {lean_str_list(forbidden)}\n\n"
+            "end Generated.Metadata\n")
